@@ -14,6 +14,7 @@ import (
 
 	"verif/harness/internal/abs"
 	"verif/harness/internal/genrun"
+	"verif/harness/internal/randschema"
 	"verif/harness/internal/sup"
 	"verif/harness/internal/tlc"
 )
@@ -183,7 +184,23 @@ func runWirePart(c *Ctx, work string, sp *WireSpec) (Coverage, int, error) {
 		run.schemas = []*wireSchema{sp.replaySchema}
 		run.cases = []*wireCase{sp.replayCase}
 	}
-	g := &tlc.Run{SpecDir: specDir, Scratch: filepath.Join(work, "gen"), Module: sp.GenModule,
+	// seeded random schemas join the universe of Gen_Wire (the specification supplies values and judgements)
+	extraFiles := map[string]string{}
+	if sp.GenModule == "Gen_Wire" && sp.replaySchema == nil {
+		nr := 40
+		if c.Tier == "thorough" {
+			nr = 240
+		}
+		_ = os.MkdirAll(work, 0o755)
+		ep := filepath.Join(work, "extra.ndjson")
+		if err := writeNDJSON(ep, nr, func(i int) interface{} {
+			return map[string]interface{}{"defs": randschema.JSON(randschema.Schema(int64(c.Seed)*100003 + int64(i)))}
+		}); err != nil {
+			return nil, 2, infra("%v", err)
+		}
+		extraFiles["extra.ndjson"] = ep
+	}
+	g := &tlc.Run{SpecDir: specDir, Scratch: filepath.Join(work, "gen"), Module: sp.GenModule, Files: extraFiles,
 		Cfg: genCfg(consts, sp.GenInvs), Workers: 16, Timeout: 20 * time.Minute,
 		OnLine: func(tag, js string) {
 			mu.Lock()
